@@ -25,8 +25,10 @@ type readScen struct {
 	other          *sector // "another exchange"
 	offset, length uint64
 	prices         proto4.HostPrices
-	auth           bool // prices and token are valid
-	full           bool // run the whole catalogue (else the short list)
+	auth           bool  // prices and token are valid
+	full           bool  // run the whole catalogue (else the short list)
+	sweep          []int // stream truncation points (bytes kept) swept in addition
+	answers        bool  // illegal request: the host answers it as if it were fine
 }
 
 type readSt struct {
@@ -59,13 +61,78 @@ func (w *world) readScenarios() []readScen {
 	}
 	exp := mk("expired-prices", ra, a, a, b, 0, 64, false)
 	exp.prices, exp.auth = w.badPrices, false
-	return append(s, exp)
+	s = append(s, exp)
+
+	// stream-level faults: the data that follows the response ends early, at every
+	// byte of a short read and at chosen points of a whole-sector read; sectors with
+	// a zero tail and the all-zero sector, where a hashed-as-zero remainder would verify
+	z, zero := w.secs[2], w.secs[3]
+	rz, r0 := w.secRoots[2], w.secRoots[3]
+	every := func(n int) (p []int) {
+		for i := 0; i < n; i++ {
+			p = append(p, i)
+		}
+		return
+	}
+	// every leaf boundary and the bytes around it, plus every 7th byte
+	pick3 := func(n int) (p []int) {
+		for i := 0; i < n; i++ {
+			if i%64 <= 1 || i%64 == 63 || i%7 == 0 || thoroughTier {
+				p = append(p, i)
+			}
+		}
+		return
+	}
+	whole := []int{0, 1, 64, 1000, 1024, 1088, 4096, sectorSize / 2, sectorSize/2 + 1, sectorSize - 4096, sectorSize - 64, sectorSize - 63, sectorSize - 1}
+	sw := func(name string, root types.Hash256, sec *sector, off, l uint64, pts []int) {
+		sc := mk(name, root, sec, sec, a, off, l, false)
+		sc.sweep = pts
+		s = append(s, sc)
+	}
+	sw("truncation/data-128-bytes", ra, a, 640, 128, every(128))
+	sw("truncation/zero-tail-sector-data-then-zeros-192-bytes", rz, z, 896, 192, pick3(192))
+	sw("truncation/zero-tail-sector-zero-region-128-bytes", rz, z, 8192, 128, every(128))
+	sw("truncation/all-zero-sector-128-bytes", r0, zero, 0, 128, pick3(128))
+	sw("truncation/whole-sector", ra, a, 0, sectorSize, whole)
+	sw("truncation/whole-zero-tail-sector", rz, z, 0, sectorSize, whole)
+	sw("truncation/whole-all-zero-sector", r0, zero, 0, sectorSize, whole)
+	sw("truncation/second-half-of-zero-tail-sector", rz, z, sectorSize/2, sectorSize/2, []int{0, 64, 100, 4096, sectorSize/2 - 64, sectorSize/2 - 1})
+
+	// illegal arguments against a host that answers as if the request were fine
+	for _, q := range []struct {
+		n      string
+		off, l uint64
+	}{{"zero-length", 64, 0}, {"zero-length-at-0", 0, 0}, {"beyond-sector", sectorSize - 64, 128}, {"offset-beyond-sector", sectorSize + 64, 64},
+		{"unaligned-end", 0, 100}, {"length-two-sectors", 0, 2 * sectorSize}, {"huge-offset", 1 << 62, 64}} {
+		sc := mk("illegal-answered/"+q.n, ra, a, a, b, q.off, q.l, false)
+		sc.answers = true
+		s = append(s, sc)
+	}
+	return s
 }
 
 func readCorrs(sc *readScen) []corr {
 	valid := sc.auth && sc.length > 0 && sc.offset <= sectorSize && sc.length <= sectorSize-sc.offset && (sc.offset+sc.length)%leafSize == 0
 	if !valid {
+		if sc.answers {
+			return []corr{
+				{name: "host-answers/clamped-range-with-valid-proof", msg: 9, typed: func(any) {}},
+				{name: "host-answers/no-data-empty-proof", msg: 9, typed: func(any) {}},
+				{name: "host-answers/first-leaf-with-valid-proof", msg: 9, typed: func(any) {}},
+			}
+		}
 		return []corr{honestCorr}
+	}
+	if sc.sweep != nil {
+		cs := []corr{honestCorr}
+		for _, n := range sc.sweep {
+			n := n
+			cs = append(cs, corr{name: fmt.Sprintf("msg1/stream-ends-after-%d-bytes", n), msg: 1, typed: func(st any) {
+				s := st.(*readSt)
+				*s.data = (*s.data)[:n]
+			}})
+		}
+		return cs
 	}
 	aligned := sc.offset%leafSize == 0
 	start, end := sc.offset/leafSize, (sc.offset+sc.length+leafSize-1)/leafSize
@@ -186,7 +253,28 @@ func (w *world) runRead(sc *readScen, c corr) *result {
 		if !readReq(s, x, proto4.RPCReadSectorID, &req) {
 			return
 		}
-		data, proof := honestRead(sc.standIn, req.Offset, req.Length)
+		var data []byte
+		var proof []types.Hash256
+		if sc.answers {
+			// a host that does not reject the illegal request: it serves what can be served
+			off, l := min(req.Offset, sectorSize-leafSize)/leafSize*leafSize, req.Length
+			switch c.name {
+			case "host-answers/no-data-empty-proof":
+				l = 0
+			case "host-answers/first-leaf-with-valid-proof":
+				off, l = 0, leafSize
+			default:
+				l = max(min(l, sectorSize-off)/leafSize*leafSize, leafSize)
+			}
+			if l > 0 {
+				data, proof = honestRead(sc.standIn, off, l)
+			}
+			resp := proto4.RPCReadSectorResponse{Proof: proof, DataLength: req.Length}
+			x.send(s, encode(&resp))
+			x.send(s, data)
+			return
+		}
+		data, proof = honestRead(sc.standIn, req.Offset, req.Length)
 		resp := proto4.RPCReadSectorResponse{Proof: proof, DataLength: uint64(len(data))}
 		c.applyTyped(1, &readSt{sc: sc, req: &req, resp: &resp, data: &data})
 		b, cut := c.bytesOf(1, &resp)
